@@ -1013,6 +1013,26 @@ fn dictzip(entropy: DzEntropy, interleave: u8, ratio: f32, cache_bytes: usize, m
     b.finish().map(boxed).map_err(|e| e.to_string())
 }
 
+/// the four documented configuration presets (and the conversion from a NestLoudsTrieConfig): dictionary builder policy,
+/// pattern lengths, min_compression_size (16..256) and cache size all differ from the hand-made configurations above
+fn dictzip_preset(which: &str) -> R<Box<dyn StoreLike>> {
+    if which == "from_nest_config" {
+        let conf = zipora::config::nest_louds_trie::NestLoudsTrieConfig::default();
+        return DictZipBlobStore::build_from_training_samples(&[training()], &conf).map(boxed).map_err(|e| e.to_string());
+    }
+    let mut cfg = match which {
+        "text" => DictZipConfig::text_compression(),
+        "binary" => DictZipConfig::binary_compression(),
+        "log" => DictZipConfig::log_compression(),
+        _ => DictZipConfig::realtime_compression(),
+    };
+    cfg.dict_builder_config.use_parallel = false;
+    cfg.dict_builder_config.enable_progress = false;
+    let mut b = DictZipBlobStoreBuilder::with_config(cfg).map_err(|e| e.to_string())?;
+    b.add_training_sample(&training()).map_err(|e| e.to_string())?;
+    b.finish().map(boxed).map_err(|e| e.to_string())
+}
+
 fn register_e1(reg: &mut zverif::Registry) {
     reg.add(Seq(StoreSpec::new("MemoryBlobStore", |_| Ok(boxed(MemoryBlobStore::new()))).remove_batch().reopen()));
     reg.add(Seq(
@@ -1316,6 +1336,16 @@ fn register_e1_audit(reg: &mut zverif::Registry) {
             .extras(&["Optimize"])
             .depth(3, 3),
     ));
+    // (coverage audit) the configuration presets, never instantiated before
+    for which in ["text", "binary", "log", "realtime", "from_nest_config"] {
+        reg.add(Seq(
+            StoreSpec::new(&format!("DictZipBlobStore[preset={which}]"), move |_| dictzip_preset(which))
+                .records(&[ZZ, A64, C300])
+                .batches(&[])
+                .removes(1)
+                .depth(3, 4),
+        ));
+    }
     // load_dictionary() in the middle of a history: it drops every record, also those a read has left in the cache
     reg.add(Seq(
         StoreSpec::new("DictZipBlobStore[entropy=None,cache=1]/reload_dict", |_| dictzip(DzEntropy::None, 0, 0.8, 1024, 2))
